@@ -142,6 +142,17 @@ impl C06 {
     fn selected(tier: Tier) -> Vec<(&'static str, &'static str, Vec<Input>, bool)> {
         programs().into_iter().filter(|p| tier == Tier::Thorough || !p.3).collect()
     }
+    /// generated programs that build and mutate heap data (U-prog families F-data, F-fn, F-match):
+    /// a few in quick, the whole stratified selection in thorough (full program text, inputs)
+    fn generated(tier: Tier) -> Vec<(String, String, Vec<Input>)> {
+        let all: Vec<(String, String, Vec<Input>)> = crate::ugen::standalone_corpus_full(Tier::Quick)
+            .into_iter()
+            .filter(|(_, p)| matches!(p.family, "F-data" | "F-fn" | "F-match"))
+            .map(|(n, p)| (format!("uprog:{n}"), p.standalone(), p.host_inputs()))
+            .collect();
+        let step = tier.pick(6, 1);
+        all.into_iter().step_by(step).collect()
+    }
 }
 
 impl Prop for C06 {
@@ -152,14 +163,21 @@ impl Prop for C06 {
         "model_checking"
     }
     fn n_units(&self, tier: Tier) -> usize {
-        Self::selected(tier).len()
+        Self::selected(tier).len() + Self::generated(tier).len()
     }
     fn run_unit(&self, tier: Tier, unit: usize, out: &mut UnitOut) {
-        let (name, body, inputs, _) = Self::selected(tier).swap_remove(unit);
+        let nsel = Self::selected(tier).len();
+        let (name, text, inputs): (String, String, Vec<Input>) = if unit < nsel {
+            let (n, body, inputs, _) = Self::selected(tier).swap_remove(unit);
+            (n.to_string(), full_text(body), inputs)
+        } else {
+            Self::generated(tier).swap_remove(unit - nsel)
+        };
+        let name = name.as_str();
+        let generated = unit >= nsel;
         if !out.begin_case(0) {
             return;
         }
-        let text = full_text(body);
         out.describe_case(&format!("{name}\n{text}"));
         let prog = match Prog::compile(name, &text, inputs) {
             Ok(p) => p,
@@ -173,8 +191,9 @@ impl Prop for C06 {
                 return;
             }
         };
-        let cycles = tier.pick(2, 3);
-        let cap = tier.pick(400_000, 5_000_000);
+        // generated programs are longer: one cycle fewer and a smaller state cap keep the unit bounded
+        let cycles = if generated { tier.pick(1, 2) } else { tier.pick(2, 3) };
+        let cap = if generated { tier.pick(150_000, 600_000) } else { tier.pick(400_000, 5_000_000) };
         let (reference, ref_steps) = sched::reference(&prog, 100_000);
         out.count("reference_mutator_steps", ref_steps as i64);
         let (stats, cex, machinery) = sched::product_bfs(&prog, cycles, cap, &reference, |_, _| Ok(()));
